@@ -15,6 +15,7 @@ mod orders;
 mod parse;
 mod path;
 mod pos;
+mod pratt;
 mod prog;
 mod regalloc;
 mod susp;
@@ -39,6 +40,7 @@ fn main() {
         "parse" => parse::line,
         "mod" => modl::line,
         "pos" => pos::line,
+        "pratt" => pratt::line,
         "prog" => prog::line,
         "proge" => prog::line_escaped,
         "regalloc" => regalloc::line,
